@@ -71,12 +71,14 @@ def one_mutant(m, suite, tier="quick"):
                 out["status"] = "patch-failed: " + (p.stdout + p.stderr)[-300:]
                 return out
         else:
-            path = os.path.join(repo, m["file"])
-            src = open(path).read()
-            if src.count(m["old"]) != m.get("count", 1):
-                out["status"] = "anchor-mismatch(%d)" % src.count(m["old"])
-                return out
-            open(path, "w").write(src.replace(m["old"], m["new"]))
+            edits = m.get("edits") or [m]
+            for ed in edits:
+                path = os.path.join(repo, ed["file"])
+                src = open(path).read()
+                if src.count(ed["old"]) != ed.get("count", 1):
+                    out["status"] = "anchor-mismatch(%d) in %s" % (src.count(ed["old"]), ed["file"])
+                    return out
+                open(path, "w").write(src.replace(ed["old"], ed["new"]))
         if suite:
             ok, tail = run_suite(repo)
             out["suite_passes"] = ok
